@@ -1,0 +1,17 @@
+//go:build verif
+
+package util
+
+import gotime "time"
+
+// VerifTickInterval, when non-zero, replaces the tick interval of WithRepeat so that a
+// verification harness can drive the endless `klog pause` loop quickly. The loop is ended
+// by the harness (its clock panics with a sentinel once its readings are used up).
+var VerifTickInterval gotime.Duration
+
+func verifTickInterval(interval gotime.Duration) gotime.Duration {
+	if VerifTickInterval > 0 {
+		return VerifTickInterval
+	}
+	return interval
+}
